@@ -106,8 +106,18 @@ func ruleP15Total(p *Prog, r *Report) {
 						if name == "PlusDays" && len(args) == 1 {
 							n++
 							ord++
-							key := fmt.Sprintf("%s.%s:PlusDays#%d", kind, mname, ord)
+							// keyed by direction, not by position: every backward (forward) step of one
+							// method fails for the same dates, however many call sites spell it
 							k, isK := constInt(args[0])
+							key := fmt.Sprintf("%s.%s:PlusDays(n)", kind, mname)
+							switch {
+							case isK && k < 0:
+								key = fmt.Sprintf("%s.%s:PlusDays(back)", kind, mname)
+							case isK && k > 0:
+								key = fmt.Sprintf("%s.%s:PlusDays(fwd)", kind, mname)
+							case isK:
+								key = fmt.Sprintf("%s.%s:PlusDays(0)", kind, mname)
+							}
 							if isK && k == 0 {
 								r.ok(rule, key, p.instrPos(x), "PlusDays(0) is total")
 								return
@@ -127,7 +137,7 @@ func ruleP15Total(p *Prog, r *Report) {
 						if g := staticCallee(x); g != nil && fnBase(g) == "NewDate" && pkgPathOfFn(g) == modPath+"/klog" {
 							n++
 							ord++
-							key := fmt.Sprintf("%s.%s:NewDate#%d", kind, mname, ord)
+							key := fmt.Sprintf("%s.%s:NewDate(%s,%s)", kind, mname, describeConst(x.Common().Args[1]), describeConst(x.Common().Args[2]))
 							cl, why := p.classifyErr(x)
 							if cl == errChecked {
 								r.ok(rule, key, p.instrPos(x), "error of NewDate is handled")
@@ -230,7 +240,7 @@ func ruleP15Guards(p *Prog, r *Report) {
 				if !gs[0].Pol {
 					noMatch = b.Succs[0]
 				}
-				if len(noMatch.Preds) == 1 && rejectComplete(noMatch, func(ret *ssa.Return) string {
+				if rejectComplete(noMatch, func(ret *ssa.Return) string {
 					if p.nilnessAt(ret.Block(), retResult(ret, 1), 0) != nnNonNil {
 						return "nil error"
 					}
@@ -272,7 +282,7 @@ func ruleP15Guards(p *Prog, r *Report) {
 				if bo.Op == token.EQL {
 					diff = b.Succs[1]
 				}
-				if len(diff.Preds) == 1 && rejectComplete(diff, func(ret *ssa.Return) string {
+				if rejectComplete(diff, func(ret *ssa.Return) string {
 					if p.nilnessAt(ret.Block(), retResult(ret, 1), 0) != nnNonNil {
 						return "nil error"
 					}
